@@ -372,6 +372,133 @@ theorem vstep_vinv (db : DB) (h : VInv db) (op : Op) (ok : OpOK db.eager op) (fi
         simp [h.vol]
       rw [this]; exact ⟨rfl, rfl⟩
 
+/-- the keys changed since they were last written, after one more operation -/
+def nextP (P : List Key) : Op → List Key
+  | .put k _ => pendingAdd P k
+  | .putExt k _ _ => pendingAdd P k
+  | .del k => pendingAdd P k
+  | _ => P
+
+/-- one operation (not a reopen) on an open volatile store, with the shadow's pending set made explicit -/
+theorem vstep_ghost (db : DB) (hv : db.volatile = true) (P : List Key) (h3 : Inv3 (ghost db P))
+    (hP : db.noSync = false → P = []) (op : Op) (ok : OpOK db.eager op) (fits : OpFits db op) :
+    (step db op).volatile = true ∧ Inv3 (ghost (step db op) (nextP P op)) ∧
+    ((step db op).noSync = false → nextP P op = []) := by
+  have hc : Cached db := h3.inv.cached
+  have inv := h3.inv
+  have i2 := h3.i2
+  cases op with
+  | reopen a b c => exact absurd ok (by simp [OpOK])
+  | put k v =>
+    obtain ⟨a, b, _⟩ := fits
+    show (putExt db k v 0).volatile = true ∧ Inv3 (ghost (putExt db k v 0) (pendingAdd P k)) ∧ ((putExt db k v 0).noSync = false → pendingAdd P k = [])
+    unfold putExt
+    rw [if_neg (notFailed hc)]
+    obtain ⟨e, n, m, hmp⟩ := memput_same db k (newRec v 0)
+    unfold afterChange
+    rw [hmp]
+    simp only [hv, ↓reduceIte]
+    have hM := putExt_addPending_inv (ghost db P) inv k v 0 a b (by decide) (zeroFlags_ok _)
+    obtain ⟨e', n', m', hmp'⟩ := memput_same (ghost db P) k (newRec v 0)
+    rw [addPending_same, hmp'] at hM
+    refine ⟨trivial, ⟨?_, inv2_same i2 rfl rfl rfl rfl⟩, fun hn => by simp at hn⟩
+    exact ⟨hM.cached, hM.nv, hM.wf, hM.nodup, hM.pnodup, hM.pkeys, hM.ver, hM.verlt, hM.dseq, hM.logst,
+      hM.log1, hM.log2, hM.clean, hM.files, hM.dflags, hM.dat1, hM.dat2, hM.dreads⟩
+  | putExt k v f =>
+    obtain ⟨a, b, c, _⟩ := fits
+    show (putExt db k v f).volatile = true ∧ Inv3 (ghost (putExt db k v f) (pendingAdd P k)) ∧ ((putExt db k v f).noSync = false → pendingAdd P k = [])
+    unfold putExt
+    rw [if_neg (notFailed hc)]
+    obtain ⟨e, n, m, hmp⟩ := memput_same db k (newRec v f)
+    unfold afterChange
+    rw [hmp]
+    simp only [hv, ↓reduceIte]
+    have hM := putExt_addPending_inv (ghost db P) inv k v f a b c ok
+    obtain ⟨e', n', m', hmp'⟩ := memput_same (ghost db P) k (newRec v f)
+    rw [addPending_same, hmp'] at hM
+    refine ⟨trivial, ⟨?_, inv2_same i2 rfl rfl rfl rfl⟩, fun hn => by simp at hn⟩
+    exact ⟨hM.cached, hM.nv, hM.wf, hM.nodup, hM.pnodup, hM.pkeys, hM.ver, hM.verlt, hM.dseq, hM.logst,
+      hM.log1, hM.log2, hM.clean, hM.files, hM.dflags, hM.dat1, hM.dat2, hM.dreads⟩
+  | del k =>
+    show (del db k).volatile = true ∧ Inv3 (ghost (del db k) (pendingAdd P k)) ∧ ((del db k).noSync = false → pendingAdd P k = [])
+    unfold del
+    rw [if_neg (notFailed hc)]
+    obtain ⟨e, n, hmd⟩ := memdel_same db k
+    unfold afterChange
+    rw [hmd]
+    simp only [hv, ↓reduceIte]
+    have hM := del_addPending_inv (ghost db P) inv k fits.1
+    obtain ⟨e', n', hmd'⟩ := memdel_same (ghost db P) k
+    rw [addPending_same, hmd'] at hM
+    refine ⟨trivial, ⟨?_, inv2_same i2 rfl rfl rfl rfl⟩, fun hn => by simp at hn⟩
+    exact ⟨hM.cached, hM.nv, hM.wf, hM.nodup, hM.pnodup, hM.pkeys, hM.ver, hM.verlt, hM.dseq, hM.logst,
+      hM.log1, hM.log2, hM.clean, hM.files, hM.dflags, hM.dat1, hM.dat2, hM.dreads⟩
+  | get k =>
+    have g3 := step_inv3 (ghost db P) h3 (.get k) ok trivial
+    have : step (ghost db P) (.get k) = ghost (step db (.get k)) P := ghost_get db hc P k
+    rw [this] at g3
+    have hsame : (Qdb.get db k).1.volatile = db.volatile ∧ (Qdb.get db k).1.noSync = db.noSync := by
+      unfold Qdb.get
+      rw [if_neg (notFailed hc)]
+      cases hl : ilookup k db.index with
+      | none => exact ⟨rfl, rfl⟩
+      | some r =>
+        simp only [loadrec_cached db.fs r (allCached_lookup hc.2 k r hl)]
+        exact ⟨trivial, trivial⟩
+    refine ⟨?_, g3, ?_⟩
+    · show (Qdb.get db k).1.volatile = true
+      rw [hsame.1]; exact hv
+    · intro hn
+      apply hP
+      have hn' : (Qdb.get db k).1.noSync = false := hn
+      rw [hsame.2] at hn'; exact hn'
+  | browse w =>
+    have g3 := step_inv3 (ghost db P) h3 (.browse w) ok trivial
+    obtain ⟨b1, _⟩ := browseGen_cached false db w hc ok
+    obtain ⟨b2, _⟩ := browseGen_cached false (ghost db P) w inv.cached ok
+    have e1 : step db (.browse w) = { db with index := db.index.map (browseRec false w) } := b1
+    have e2 : step (ghost db P) (.browse w) = ghost (step db (.browse w)) P := by rw [e1]; exact b2
+    rw [e2] at g3
+    refine ⟨by rw [e1]; exact hv, g3, fun hn => hP (by rw [e1] at hn; exact hn)⟩
+  | applyFlags k fl =>
+    have g3 := step_inv3 (ghost db P) h3 (.applyFlags k fl) ok trivial
+    have e1 : step db (.applyFlags k fl) = applyFlags db k fl := rfl
+    have e2 : step (ghost db P) (.applyFlags k fl) = ghost (step db (.applyFlags k fl)) P := by
+      show applyFlags (ghost db P) k fl = ghost (applyFlags db k fl) P
+      unfold applyFlags
+      show (if db.failed.isSome = true then _ else _) = _
+      split
+      · rfl
+      · show (match ilookup k db.index with | none => _ | some r => _) = _
+        cases ilookup k db.index <;> rfl
+    rw [e2] at g3
+    have hsame : (applyFlags db k fl).volatile = db.volatile ∧ (applyFlags db k fl).noSync = db.noSync := by
+      unfold applyFlags
+      rw [if_neg (notFailed hc)]
+      cases ilookup k db.index <;> exact ⟨rfl, rfl⟩
+    exact ⟨by rw [e1, hsame.1]; exact hv, g3, fun hn => hP (by rw [e1, hsame.2] at hn; exact hn)⟩
+  | defrag f =>
+    have : step db (.defrag f) = db := by
+      show (defragOp db f).1 = db
+      unfold defragOp
+      rw [if_neg (notFailed hc)]
+      simp [hv]
+    rw [this]; exact ⟨hv, h3, hP⟩
+  | sync =>
+    have : step db .sync = db := by
+      show syncOp db = db
+      unfold syncOp
+      rw [if_neg (notFailed hc)]
+      simp [hv]
+    rw [this]; exact ⟨hv, h3, hP⟩
+  | noSync =>
+    have : step db .noSync = db := by
+      show noSyncOp db = db
+      unfold noSyncOp
+      rw [if_neg (notFailed hc)]
+      simp [hv]
+    rw [this]; exact ⟨hv, h3, hP⟩
+
 /-! ### Close, in both modes, and the NewDBExt that follows -/
 
 /-- what Close leaves, in a form shared by both modes -/
@@ -807,5 +934,26 @@ theorem hrun_dur (H : List HItem) (db : DB) (h : SInv db) (ok : ∀ i ∈ H, HOK
           funext (fun k => (hval k).trans ((v2 k).trans ((hn k).trans (S.vals k))))
         rw [this] at i2
         exact i2
+
+/-- the ghost field never changes along a history -/
+theorem hrun_eager (H : List HItem) (db : DB) (h : SInv db) (ok : ∀ i ∈ H, HOK db.eager i) (fits : HFits db H) :
+    (hrun db H).eager = db.eager := by
+  induction H generalizing db with
+  | nil => rfl
+  | cons i t ih =>
+    cases i with
+    | op o =>
+      have oko : OpOK3 db.eager o := ok (.op o) List.mem_cons_self
+      obtain ⟨f1, f2, f3⟩ := fits
+      have S := stepOK db h o oko f1 f2
+      exact (ih (step db o) S.inv (fun x hx => by rw [S.eager]; exact ok x (List.mem_cons_of_mem _ hx)) f3).trans S.eager
+    | crash o n ms vol opts =>
+      obtain ⟨f1, f2, f3, f4⟩ := fits
+      have hce : (hstep db (.crash o n ms vol opts)).eager = db.eager := openDB_eager _ _ _ _
+      have hsi : SInv (hstep db (.crash o n ms vol opts)) :=
+        (hrun_dur [.crash o n ms vol opts] db h
+          (fun x hx => by rcases List.mem_singleton.mp hx with rfl; exact ok _ List.mem_cons_self)
+          ⟨f1, f2, f3, trivial⟩).1
+      exact (ih _ hsi (fun x hx => by rw [hce]; exact ok x (List.mem_cons_of_mem _ hx)) f4).trans hce
 
 end GocoinV.Proofs.C19
